@@ -544,10 +544,77 @@ pub fn cut_inside_markup(doc: &[u8], cuts: &[u32]) -> bool {
 /// one tag, or deep nesting. Structure (and the name/attrs fields the models use)
 /// stays exact. Applied to a small share of plans only.
 pub fn stretch_tokens(rng: &mut Rng, toks: &mut Vec<Tok>, allow_wrap: bool) -> String {
+    let original = toks.clone();
+    let note = stretch_tokens_inner(rng, toks, allow_wrap);
+    // transforms compound (700 siblings x a 2 KB name): keep single runs affordable
+    let size: usize = toks.iter().map(|t| t.raw.len()).sum();
+    if size > 150_000 {
+        *toks = original;
+        return format!("(dropped, {} bytes would be too large: {})", size, note);
+    }
+    note
+}
+
+fn stretch_tokens_inner(rng: &mut Rng, toks: &mut Vec<Tok>, allow_wrap: bool) -> String {
     let mut note = String::new();
     let lens = [17usize, 33, 65, 129, 257, 1100];
     for _ in 0..rng.range(1, 2) {
-        match rng.below(5) {
+        match rng.below(7) {
+            5 => {
+                // a long comment / CDATA / PI payload
+                let idx: Vec<usize> = (0..toks.len()).filter(|&i| matches!(toks[i].k, TK::Comment | TK::CData | TK::PI)).collect();
+                if idx.is_empty() {
+                    continue;
+                }
+                let i = *rng.pick(&idx);
+                let n = *rng.pick(&[70usize, 300, 8200]);
+                let (open, unit) = match toks[i].k {
+                    // units cannot combine with the original payload into a terminator
+                    TK::Comment => (4, "c> <a> "),
+                    TK::CData => (9, "d> </a> "),
+                    _ => (2, "p > x "),
+                };
+                if toks[i].raw.len() >= open {
+                    let mut filler: String = unit.chars().cycle().take(n).collect();
+                    filler.push(' ');
+                    // PI: keep the target, add the filler as content
+                    let at = if toks[i].k == TK::PI { toks[i].raw.len() - 2 } else { open };
+                    let mut r = toks[i].raw[..at].to_vec();
+                    if toks[i].k == TK::PI {
+                        r.push(b' ');
+                    }
+                    r.extend_from_slice(filler.as_bytes());
+                    r.extend_from_slice(&toks[i].raw[at..]);
+                    toks[i].raw = r;
+                    note.push_str(&format!("long-{:?}({}) ", toks[i].k, n));
+                }
+            }
+            6 => {
+                // many siblings (with declarations when the document uses namespaces)
+                let ends: Vec<usize> = (0..toks.len()).filter(|&i| toks[i].k == TK::End).collect();
+                if ends.is_empty() {
+                    continue;
+                }
+                let at = *rng.pick(&ends);
+                let ns = toks.iter().any(|t| t.attrs.iter().any(|(k, _)| k.starts_with("xmlns")));
+                let n = *rng.pick(&[130usize, 260, 700]);
+                let mut sib: Vec<Tok> = Vec::with_capacity(n);
+                for k in 0..n {
+                    let (raw, attrs) = if ns && k % 3 == 0 {
+                        ("<p:c xmlns:p=\"u1\"/>".to_string(), vec![("xmlns:p".to_string(), "u1".to_string())])
+                    } else if k % 2 == 0 {
+                        ("<s k=\"v\"/>".to_string(), vec![("k".to_string(), "v".to_string())])
+                    } else {
+                        ("<s/>".to_string(), vec![])
+                    };
+                    let name = if raw.starts_with("<p:c") { "p:c" } else { "s" };
+                    sib.push(Tok { k: TK::Empty, raw: raw.into_bytes(), name: name.to_string(), attrs });
+                }
+                let tail: Vec<Tok> = toks.split_off(at);
+                toks.extend(sib);
+                toks.extend(tail);
+                note.push_str(&format!("many-siblings({}) ", n));
+            }
             0 => {
                 // rename one element name consistently
                 let names: Vec<String> = toks.iter().filter(|t| matches!(t.k, TK::Start | TK::Empty)).map(|t| t.name.clone()).collect();
